@@ -30,6 +30,11 @@ def check(an, rep, tier):
     rules_rng.check_uninit(prog, rep)
     rules_rng.check_clock(prog, rep)
     rules_rng.check_iter_order(prog, rep)
+    rules_rng.check_rand_ctor(prog, rep)
+    from .. import rules_proto
+    seeded = {f.qualname for f in rules_rng.seeded_functions(prog)}
+    rules_proto.check_param_forwarding(prog, rep, callers=seeded,
+                                       rule='P-forward-name')
     # --- draw sites: local provenance
     n_sites = 0
     local = {}
